@@ -90,6 +90,10 @@ struct Outcome {
 }
 
 fn drive_reader(bytes: &[u8], rs: &RSchema, kind: &ReaderKind, nvals: usize, fail_at: Option<u64>) -> Result<Outcome, String> {
+	drive_reader_kind(bytes, rs, kind, nvals, fail_at, std::io::ErrorKind::Other)
+}
+
+fn drive_reader_kind(bytes: &[u8], rs: &RSchema, kind: &ReaderKind, nvals: usize, fail_at: Option<u64>, fail_kind: std::io::ErrorKind) -> Result<Outcome, String> {
 	let mo = ModeOwned::default_typed();
 	match (kind, fail_at) {
 		(ReaderKind::Chunked(s), Some(i)) => {
@@ -99,6 +103,7 @@ fn drive_reader(bytes: &[u8], rs: &RSchema, kind: &ReaderKind, nvals: usize, fai
 			let m = mo.as_mode(&stats);
 			let mut rd = crate::io::ChunkedBufRead::new(bytes, s.clone());
 			rd.fail_at_call = Some(i);
+			rd.fail_kind = fail_kind;
 			let mut reader = Reader::from_reader(rd).map_err(|e| e.to_string())?;
 			let mut items = Vec::new();
 			let mut after_err = 0;
@@ -193,6 +198,8 @@ fn judge2(out: &Outcome, vals: &[Val], exp: Expectation, damage_is_truncation_or
 }
 
 pub fn run_case(ctx: &mut Ctx, case_seed: u64) {
+	// values written by this monitor hold at most a few dozen elements per collection
+	crate::bridge::collect::set_seq_cap(50_000);
 	let mut rng = Rng::new(case_seed);
 	let rs = sized_schema(&mut rng);
 	let nblocks_target = 1 + rng.below(6);
@@ -451,15 +458,20 @@ pub fn run_case(ctx: &mut Ctx, case_seed: u64) {
 			} else {
 				(0..300).map(|_| rng.below(ncalls as usize) as u64).collect()
 			};
+			// what kind of error the source reports must not matter: each of them ends the stream after being reported once
+			// (`Interrupted` aside, which the reading layers of std may retry transparently: then nothing is lost)
+			use std::io::ErrorKind as EK;
+			let fault_kind = *rng.pick(&[EK::Other, EK::Other, EK::WouldBlock, EK::TimedOut, EK::ConnectionReset, EK::UnexpectedEof, EK::Interrupted]);
+			ctx.count(&format!("io_fault_kind:{fault_kind:?}"));
 			for i in idxs {
-				match drive_reader(&file, &rs, &kind, n, Some(i)) {
+				match drive_reader_kind(&file, &rs, &kind, n, Some(i), fault_kind) {
 					Err(_) => {}
 					Ok(out) => {
 						if let Some(sig) = judge(&out, &vals, Expectation::PrefixOnly, true) {
 							ctx.violation(
 								format!("io-fault: {sig}"),
 								case_seed,
-								describe(format!("io::Error injected at read call {i} of {ncalls}"), &kind, Some(&out)),
+								describe(format!("io::Error of kind {fault_kind:?} injected at read call {i} of {ncalls}"), &kind, Some(&out)),
 							);
 							return;
 						}
@@ -470,7 +482,7 @@ pub fn run_case(ctx: &mut Ctx, case_seed: u64) {
 							ctx.violation(
 								"io-fault: error-swallowed (values missing, no Err reported)",
 								case_seed,
-								describe(format!("io::Error injected at read call {i} of {ncalls}"), &kind, Some(&out)),
+								describe(format!("io::Error of kind {fault_kind:?} injected at read call {i} of {ncalls}"), &kind, Some(&out)),
 							);
 							return;
 						}
